@@ -415,4 +415,106 @@ theorem rename_other_unchanged (fuel : Nat) (cs : Str) (h : ∀ c ∈ cs, c ≠ 
       simp only [hs, Bool.false_eq_true, if_false]
       rw [ih rest (fun x hx => h x (by simp [hx]))]
 
+/-! ## tables without labels (NOLABEL / NOHEADER) -/
+
+/-- **parse ∘ render = id for header-less tables**: every record written is read as a data row
+    (none is taken as a header), the columns are labelled by position 0…n-1, and every numeric
+    cell text denotes exactly the number written — for any number of columns and records. -/
+theorem parse_render_nolabel (t : RefTable) (h : t.fitsRecords = true) (hne : t.rows ≠ []) :
+    readFrameNoHeader (renderRecords t)
+        = .ok ⟨positions t.cols.length, t.rows.map (fun r => r.map (fun c => some (renderCell c)))⟩
+      ∧ ∀ r ∈ t.rows, ∀ c ∈ r, ∀ d, cellDec c = some d → parseNum (renderCell c) = some d := by
+  simp only [RefTable.fitsRecords, Bool.and_eq_true, Bool.not_eq_eq_eq_not, Bool.not_true,
+    List.all_eq_true] at h
+  obtain ⟨hcols, hrows⟩ := h
+  constructor
+  · have hlines : (renderRecords t).map splitWs = t.rows.map (fun r => r.map renderCell) := by
+      simp only [renderRecords, List.map_map]
+      apply List.map_congr_left
+      intro r hr
+      exact splitWs_renderRow _ _ (hrows r hr).2
+    have hrowlen : ∀ r ∈ t.rows.map (fun r => r.map renderCell), r.length = t.cols.length := by
+      intro r hr
+      obtain ⟨r0, hr0, rfl⟩ := List.mem_map.mp hr
+      exact fitsRow_length _ _ (hrows r0 hr0).2
+    have hpos : 0 < t.cols.length := by
+      cases hc : t.cols with
+      | nil => rw [hc] at hcols; simp at hcols
+      | cons a b => simp
+    have hfilter : (t.rows.map (fun r => r.map renderCell)).filter (fun x => !x.isEmpty)
+        = t.rows.map (fun r => r.map renderCell) := by
+      apply List.filter_eq_self.mpr
+      intro x hx
+      have := hrowlen x hx
+      cases x with
+      | nil => simp at this; omega
+      | cons a b => rfl
+    unfold readFrameNoHeader
+    rw [hlines, hfilter]
+    cases hr : t.rows.map (fun r => r.map renderCell) with
+    | nil => exact absurd (by simpa using hr) hne
+    | cons r0 rest =>
+      have h0 : r0.length = t.cols.length := hrowlen r0 (by rw [hr]; simp)
+      have hany : rest.any (fun r => decide (r.length > t.cols.length)) = false := by
+        apply List.any_eq_false.mpr
+        intro r hr'
+        have := hrowlen r (by rw [hr]; simp [hr'])
+        simp [this]
+      simp only [h0, hany, Bool.false_eq_true, if_false]
+      congr 2
+      first
+        | (apply List.map_congr_left
+           intro r hr'
+           have hl : (r.map renderCell).length = t.cols.length :=
+             hrowlen _ (List.mem_map.mpr ⟨r, hr', rfl⟩)
+           simp only [Function.comp]
+           rw [padRow_full _ _ hl, List.map_map]
+           rfl)
+        | (rw [← hr, List.map_map]
+           apply List.map_congr_left
+           intro r hr'
+           have hl : (r.map renderCell).length = t.cols.length :=
+             hrowlen _ (List.mem_map.mpr ⟨r, hr', rfl⟩)
+           simp only [Function.comp]
+           rw [padRow_full _ _ hl, List.map_map]
+           rfl)
+  · intro r hr c hc d hd
+    exact parse_render_cell c d ((hrows r hr).1 c hc) hd
+
+/-- The whole reader on a NOTITLE + NOLABEL file: when the first column is a right-justified number
+    (as in every $TABLE output) no record is mistaken for a repeated header line either, so
+    `NONMEMTableFile(path, notitle=True, nolabel=True)` holds one table with all records. -/
+theorem nolabel_file_all_records (k : Kind) (t : RefTable) (h : t.fitsRecords = true) (hne : t.rows ≠ [])
+    (c : Col) (cs : List Col) (hc : t.cols = c :: cs) (hal : c.align = .right)
+    (hnum : ∀ r ∈ t.rows, ∀ cell cells, r = cell :: cells → ∀ s, cell ≠ .label s) :
+    parseFile k true true (renderRecords t)
+      = .ok [⟨none, .generic, ⟨positions t.cols.length,
+          t.rows.map (fun r => r.map (fun c => some (renderCell c)))⟩⟩] := by
+  have hfit := h
+  simp only [RefTable.fitsRecords, Bool.and_eq_true, List.all_eq_true] at hfit
+  have hkeep : ∀ l ∈ renderRecords t, looksLikeHeader l = false := by
+    intro l hl
+    obtain ⟨r, hr, rfl⟩ := List.mem_map.mp hl
+    have hrow := (hfit.2 r hr).2
+    rw [hc] at hrow ⊢
+    cases r with
+    | nil => simp [fitsRow] at hrow
+    | cons cell cells =>
+      simp only [List.map_cons, fitsRow, Bool.and_eq_true] at hrow
+      have hf := hrow.1
+      simp only [fitsField, hal, Bool.and_eq_true, decide_eq_true_eq] at hf
+      simp only [List.map_cons, renderRow, renderField, hal]
+      exact data_line_not_header c.width cell _ (hnum _ hr cell cells rfl) hf.2
+  have hdrop : dropRepeatedHeaders (renderRecords t) = renderRecords t := by
+    cases hl : renderRecords t with
+    | nil => rfl
+    | cons a rest =>
+      simp only [dropRepeatedHeaders]
+      congr 1
+      apply List.filter_eq_self.mpr
+      intro x hx
+      have := hkeep x (by rw [hl]; simp [hx])
+      simp [this]
+  simp only [parseFile, if_true, hdrop, (parse_render_nolabel t h hne).1]
+
 end Pharmpy.C20
